@@ -69,6 +69,16 @@ Theorem C07_logdet_numfield : forall (R : numFieldType) (cj : R -> R)
 Proof. exact (@logdet_numfield). Qed.
 Print Assumptions C07_logdet_numfield.
 
+(* 7b. real operators (any realFieldType, trivial involution): the sign is exactly Num.sg of the determinant, it is +1 or -1,
+       and the determinant of a valid (non-singular) tree is non-zero; so odd permutations / negative scalars flip it *)
+Theorem C07_slogdet_realfield : forall (R : realFieldType) (kabs ksgn : R -> R) alg (e : sop (R:=R) R),
+  @valid R (mcRing R) (realCRing R) R R (realdom kabs ksgn) (mxdet R) alg e ->
+  let s := fst (@slogdet R (mcRing R) R R (realdom kabs ksgn) all_fixed alg e) in
+  let d := \det (\matrix_(i < dim e, j < dim e) @den R (mcRing R) (realCRing R) (to_op e) i j) in
+  s = Num.sg d /\ (s = 1 \/ s = -1) /\ d != 0.
+Proof. exact (@slogdet_realfield). Qed.
+Print Assumptions C07_slogdet_realfield.
+
 (* 8. the exact instance that vm_compute runs in the correspondence check is covered by theorem 4 *)
 Theorem C07_exec_instance : forall fdet : nat -> fm (R:=qi) -> qi, DetLaws fdet ->
   forall alg (e : sop (R:=qi) sd), valid sd sd qdom fdet alg e ->
